@@ -1434,6 +1434,7 @@ class Rig:
         if trusted is not None:
             self.app.trusted_hosts = list(trusted)
         self.hash = wd.hash_pin(PIN)
+        self.pin_value = PIN
         self.spy = Spy()
         self.base = create_environ("/", "http://localhost/")
         self.logs = []
@@ -1518,7 +1519,7 @@ class Rig:
     def model_line(self, args, path, host, cookie, count, evalex) -> str:
         frames = ",".join(str(k) for k in (self.frames_before if self.frames_before is not None else [FID])) or "_"
         cfg = (f"{int(evalex)} {ostr(self.console_path)} {cps(self.app.secret)} {frames} "
-               f"{cps(PIN) if self.pin_on else '~'} {cps(self.hash)} {int(self.pin_logging)} "
+               f"{cps(self.pin_value) if self.pin_on else '~'} {cps(self.hash)} {int(self.pin_logging)} "
                f"{olist(self.configured if self.configured is not None else self.app.trusted_hosts)}")
         a = "|".join(f"{cps(k)}={cps(v)}" for k, v in args) if args else "_"
         tkey = (host, tuple(self.app.trusted_hosts), tuple(self.configured or ()))
@@ -2184,6 +2185,76 @@ def run(chk: Check, consts: dict | None) -> None:
             h = "".join(rng.choices("RWSCUE", weights=[1, 2, 30, 1, 1, 1])[0] for _ in range(L)) + "R"
             replay(h)
         chk.count("history:steps", n_steps[0])
+
+        # server-side PIN assignment between requests (app.pin = value on the running app): '=' assigns the current value,
+        # 'N' a new one.  Model step: pin := value, counter unchanged.  Oracle: the assignment does not move the counter;
+        # once more than ten attempts failed the correct PIN - new or old - is refused whatever was assigned.
+        prig = Rig(wd, True, True, HIST_TRUSTED)
+        rigs[("pinassign",)] = prig
+        psec = prig.app.secret
+        new_pins = ["271-828-182", "161-803-398", "141-421-356", "173-205-080"]
+
+        def p_replay(hist: str):
+            prig.reset(0)
+            prig.app.pin = PIN
+            prig.pin_value, prig.hash = PIN, wd.hash_pin(PIN)
+            old_pin, n, k_new = PIN, 0, 0
+            for i, sym in enumerate(hist):
+                c0 = prig.app._failed_pin_auth.value
+                inp = {"kind": "pin-assignment-history", "history": hist[:i + 1], "counter_before": c0,
+                       "legend": "W wrong PIN, S stale cookie, R current PIN, O previous PIN, = assign the same PIN, N assign a new PIN"}
+                if sym in "=N":
+                    if sym == "N":
+                        old_pin = prig.pin_value
+                        prig.pin_value = new_pins[k_new % len(new_pins)]
+                        k_new += 1
+                    prig.app.pin = prig.pin_value
+                    prig.hash = wd.hash_pin(prig.pin_value)
+                    c1 = prig.app._failed_pin_auth.value
+                    if c1 != c0:
+                        chk.fail("pin-assignment-moves-counter" if n <= 10 else "lockout-bypassed:pin-assigned",
+                                 f"app.pin = ... moved the failure counter from {c0} to {c1} after {n} failed attempts",
+                                 dict(inp, counter_after=c1))
+                    if prig.app.pin != prig.pin_value:
+                        chk.fail("pin-assignment-ignored", "app.pin does not return the assigned value", inp)
+                    continue
+                pin_arg = {"R": prig.pin_value, "O": old_pin, "W": "000-000-001", "S": prig.pin_value}[sym]
+                args = [("__debugger__", "yes"), ("cmd", "pinauth"), ("pin", pin_arg), ("s", psec)]
+                cookie = COOKIES["wrong-hash" if sym == "S" else "absent"](prig.hash, T)
+                obs, c1, ms, det = prig.request(args, "/", "localhost", cookie)
+                inp.update(observed=obs, counter_after=c1)
+                locked = n > 10
+                right = sym == "R" or (sym == "O" and old_pin == prig.pin_value)
+                if locked and obs.startswith("pin:1"):
+                    chk.fail("lockout-bypassed:pin-assigned", f"PIN accepted after {n} failed attempts and a server-side PIN assignment", inp)
+                if not right and sym != "S" and obs.startswith("pin:1"):
+                    chk.fail("wrong-pin-accepted", "a PIN that is not the current one authenticates", inp)
+                if right and not locked and obs != "pin:1,0,set":
+                    chk.fail("pin-refused", f"current PIN refused after only {n} failed attempts: {obs}", inp)
+                if sym == "S":
+                    n += 1
+                elif right:
+                    n = n if locked else 0
+                else:
+                    n = n if locked else n + 1
+                add(prig.model_line(args, "/", "localhost", cookie, c0, True),
+                    f"{obs} c={c1} s={'-' if ms is None else ms} f0={int(det['frame0'])}", "pin-assign")
+            chk.case(("pin-assign", hist), nontrivial=True)
+
+        n_pa = 0
+        for base in ["W" * 11, "S" * 11, "WSWSWSWSWSW", "W" * 5 + "R" + "W" * 11, "W" * 10]:
+            for pos in range(len(base) + 1):
+                for a_ in ("=", "N", "N=", "NN"):
+                    for tail in ("R", "OR", "WR"):
+                        with_timeout(p_replay, 60, base[:pos] + a_ + base[pos:] + tail)
+                        n_pa += 1
+        import itertools as _it2
+        for L in range(1, 5 if quick else 7):
+            for tup in _it2.product("RWO=N", repeat=L):
+                with_timeout(p_replay, 60, "".join(tup))
+                n_pa += 1
+        del rigs[("pinassign",)]
+        chk.count("pin-assignment histories", n_pa)
     finally:
         wd.time, wd._log = real_time, real_log
         wd._ConsoleFrame.eval = real_ceval
